@@ -1,11 +1,16 @@
 --------------------------- MODULE Gen_SortNodes ---------------------------
 EXTENDS SortNodes, SequencesExt, Json, IOUtils
-CONSTANTS MaxN, Pools
+CONSTANTS MaxN, Pools, SlimTop
 InjSeqs(S, n) == { s \in [1 .. n -> S] : Injective(s) }
 \* cols[k] = <<type, x, y, z, r, extra>> : x is the row's identity tag; the extra column differs from every standard one
 \* the extra column has missing entries (-1 stands for "no value": NaN in the table and tree forms)
 ColsOf(n) == [k \in 1 .. n |-> <<1 + (k % 3), 100 + k, (7 * k) % 5, (3 * k) % 4, 1 + (k % 2), IF k % 3 = 0 THEN -1 ELSE 300 + 2 * k>>]
-Tables == UNION { UNION { { [ids |-> ids, Q |-> Q, pids |-> PidsOf(ids, Q), cols |-> ColsOf(n)] : ids \in InjSeqs(S, n), Q \in TableTopos(n) }
+\* at the largest size only the rotations of the pool in ascending and in descending order (every arrangement would take TLC the better part of an hour to write out)
+Asc(S) == SetToSortSeq(S, LAMBDA a, b : a < b)
+RotSeqs(S, n) == IF Cardinality(S) # n THEN {} ELSE
+                 LET a == Asc(S) IN { [k \in 1 .. n |-> a[((k - 1 + r) % n) + 1]] : r \in 0 .. n - 1 } \cup { [k \in 1 .. n |-> a[((2 * n - k + r) % n) + 1]] : r \in 0 .. n - 1 }
+IdSeqs(S, n) == IF SlimTop /\ n = MaxN THEN RotSeqs(S, n) ELSE InjSeqs(S, n)
+Tables == UNION { UNION { { [ids |-> ids, Q |-> Q, pids |-> PidsOf(ids, Q), cols |-> ColsOf(n)] : ids \in IdSeqs(S, n), Q \in TableTopos(n) }
                           : S \in { T \in Pools : Cardinality(T) >= n } } : n \in 1 .. MaxN }
 \* table / file forms: any ids, root anywhere.  tree form: ids = positions (any numbering)
 IsPositions(t) == t.ids = [k \in 1 .. Len(t.ids) |-> k - 1]
